@@ -9,6 +9,9 @@ CONSTANTS
   SaveAsSet = {"none"}
   Modes = {"deleted", "truncated", "nonjson", "unknown", "shape", "datagone"}
   MayFail = TRUE
+  OutcomeSet = {"crash"}
+  BackedSet = {FALSE}
+  RecordMode = "component"
   PoolSet = {FALSE}
   AssembleMode = "index"
   MaxFaults = 2
